@@ -3,7 +3,7 @@
 
 use vmodel::json::J;
 
-pub const SEEDS: [&str; 20] = [
+pub const SEEDS: [&str; 30] = [
 	r#""int""#,
 	r#"{"type":"string"}"#,
 	r#"["null","string"]"#,
@@ -24,6 +24,27 @@ pub const SEEDS: [&str; 20] = [
 	r#"{"type":"array","items":["null",{"type":"map","values":"bytes"}]}"#,
 	r#"{"type":"int","logicalType":"date"}"#,
 	r#"{"type":"bytes","logicalType":"big-decimal"}"#,
+	// --- forward references (a name used before its definition), in various positions
+	// after a scalar sibling; defined by a later field
+	r#"{"type":"record","name":"R","fields":[{"name":"a","type":"int"},{"name":"b","type":"Later"},{"name":"c","type":{"type":"enum","name":"Later","symbols":["X"]}}]}"#,
+	// after an inline-defined sibling
+	r#"{"type":"record","name":"R","fields":[{"name":"a","type":{"type":"fixed","name":"F","size":2}},{"name":"b","type":"Later"},{"name":"c","type":{"type":"record","name":"Later","fields":[]}}]}"#,
+	// the first forward reference is nested deeper than a later one
+	r#"{"type":"record","name":"R","fields":[{"name":"a","type":{"type":"record","name":"In","fields":[{"name":"x","type":"int"},{"name":"y","type":["null","L1"]}]}},{"name":"b","type":"L2"},{"name":"c","type":{"type":"enum","name":"L1","symbols":["X"]}},{"name":"d","type":{"type":"fixed","name":"L2","size":1}}]}"#,
+	// held by a union, an array and a map
+	r#"{"type":"record","name":"R","fields":[{"name":"a","type":"int"},{"name":"u","type":["null","Later"]},{"name":"arr","type":{"type":"array","items":"Later"}},{"name":"m","type":{"type":"map","values":"Later"}},{"name":"def","type":{"type":"enum","name":"Later","symbols":["X"]}}]}"#,
+	// two forward references to the same type and one to another
+	r#"{"type":"record","name":"R","fields":[{"name":"a","type":"long"},{"name":"b","type":"T1"},{"name":"c","type":"T1"},{"name":"d","type":"T2"},{"name":"e","type":{"type":"enum","name":"T1","symbols":["A"]}},{"name":"f","type":{"type":"fixed","name":"T2","size":3}}]}"#,
+	// to a type defined inside a later field's nested record
+	r#"{"type":"record","name":"R","fields":[{"name":"a","type":"string"},{"name":"b","type":"Deep"},{"name":"c","type":{"type":"record","name":"Mid","fields":[{"name":"p","type":"int"},{"name":"q","type":{"type":"enum","name":"Deep","symbols":["X"]}}]}}]}"#,
+	// namespaced: by fullname and by the enclosing namespace
+	r#"{"type":"record","name":"ns.R","fields":[{"name":"a","type":"int"},{"name":"b","type":"ns.Later"},{"name":"c","type":"Later"},{"name":"d","type":{"type":"fixed","name":"Later","size":1}}]}"#,
+	// top-level union: forward references from a branch and from a record inside a branch
+	r#"["null","Later",{"type":"record","name":"Holder","fields":[{"name":"x","type":"int"},{"name":"y","type":"Later"}]},{"type":"enum","name":"Later","symbols":["X"]}]"#,
+	// union holder whose earlier branch defines a node, inside an array
+	r#"{"type":"array","items":[{"type":"fixed","name":"F","size":1},"Later",{"type":"record","name":"Later","fields":[{"name":"v","type":"F"}]}]}"#,
+	// a later holder (union) sits before an earlier, deeper holder in node order
+	r#"{"type":"record","name":"R","fields":[{"name":"u","type":["int",{"type":"record","name":"In","fields":[{"name":"p","type":"boolean"},{"name":"q","type":"L1"}]},"L2"]},{"name":"d1","type":{"type":"enum","name":"L1","symbols":["A"]}},{"name":"d2","type":{"type":"enum","name":"L2","symbols":["B"]}}]}"#,
 ];
 
 pub const ATOMS: [&str; 12] = ["null", "true", "0", "-1", "1e99", "18446744073709551616", r#""""#, r#""int""#, r#""record""#, r#""X""#, "[]", "{}"];
@@ -237,7 +258,9 @@ impl NearMiss {
 	}
 }
 
-pub const MISC: [&str; 24] = [
+pub const MISC: [&str; 26] = [
+	r#"{"type":"record","name":"R","fields":[{"name":"a","type":"int"},{"name":"b","type":"Never"}]}"#,
+	r#"{"type":"record","name":"R","fields":[{"name":"a","type":"int"},{"name":"b","type":["null","Never"]},{"name":"c","type":{"type":"enum","name":"Other","symbols":["X"]}}]}"#,
 	"", " ", "\u{feff}\"int\"", "\0", "nul", "int", "'int'", "\"int", "\"\\ud800\"", "\"\\u0000\"", "\"int\" \"int\"", "\"int\",", "{\"type\":\"int\"}}", "[\"int\"]]", "// c\n\"int\"", "NaN", "-", "1e99999", "{\"type\":\"int\",}", "{type:\"int\"}",
 	"{\"type\":\"fixed\",\"name\":\"F\",\"size\":-1}", "{\"type\":\"fixed\",\"name\":\"F\",\"size\":1.0}", "{\"type\":\"fixed\",\"name\":\"F\",\"size\":18446744073709551615}", "{\"type\":\"bytes\",\"logicalType\":\"decimal\",\"precision\":18446744073709551615,\"scale\":4294967295}",
 ];
